@@ -100,3 +100,12 @@ pub use self::transform::Translation;
 
 /// Storage container for low level point data.
 pub type RawValues = Vec<RecordValue>;
+
+/// Verification hook (off by default): re-exports the crate-private CRC page layer
+/// so that an external harness can drive it directly. Adds no behaviour.
+#[cfg(feature = "e57_verif")]
+#[doc(hidden)]
+pub mod verif {
+    pub use crate::paged_reader::PagedReader;
+    pub use crate::paged_writer::PagedWriter;
+}
